@@ -70,8 +70,8 @@ theorem catchPhase_ext {P : List Ev → Prop} (hP : Mon P) {cl : Thrown → List
   case normal => exact ⟨[], by simp, hP.nil⟩
   all_goals exact tryValue_ext hP h _
 
-theorem finallyPhase_snd (i : Nat) (hasFin : Bool) (runFin : List Ev → Res) (r2 : Res) :
-    (finallyPhase i hasFin runFin r2).2 = if hasFin then (runFin (r2.2 ++ [.enterFinally i])).2 else r2.2 := by
+theorem finallyPhase_snd (a i : Nat) (hasFin : Bool) (runFin : List Ev → Res) (r2 : Res) :
+    (finallyPhase a i hasFin runFin r2).2 = if hasFin then (runFin (r2.2 ++ [.enterFinally a i])).2 else r2.2 := by
   unfold finallyPhase
   cases hasFin
   · simp
@@ -80,38 +80,53 @@ theorem finallyPhase_snd (i : Nat) (hasFin : Bool) (runFin : List Ev → Res) (r
 
 /-- what a (repaired) `try` statement appends: `enterTry`, the body's events, the handler's events, and — iff
 there is a finally block — `enterFinally` and the finally block's events -/
-theorem tryStmt_shape {P : List Ev → Prop} (hP : Mon P) (i : Nat) (hasFin : Bool)
+theorem tryStmt_shape {P : List Ev → Prop} (hP : Mon P) (a i : Nat) (hasFin : Bool)
     {runBody : List Ev → Res} {cl : Thrown → List Ev → Res} {runFin : List Ev → Res}
     (hb : Extends P runBody) (hc : ∀ x, Extends P (cl x)) (hf : Extends P runFin) (tr : List Ev) :
     ∃ e1 e2 e3, P e1 ∧ P e2 ∧ P e3 ∧
-      (tryStmt i hasFin runBody cl runFin tr).2 =
-        tr ++ [.enterTry i] ++ e1 ++ e2 ++ (if hasFin then [.enterFinally i] ++ e3 else []) := by
-  obtain ⟨e1, h1, p1⟩ := hb (tr ++ [.enterTry i])
-  obtain ⟨e2, h2, p2⟩ := catchPhase_ext hP hc (protect (runBody (tr ++ [.enterTry i])))
+      (tryStmt a i hasFin runBody cl runFin tr).2 =
+        tr ++ [.enterTry a i] ++ e1 ++ e2 ++ (if hasFin then [.enterFinally a i] ++ e3 else []) := by
+  obtain ⟨e1, h1, p1⟩ := hb (tr ++ [.enterTry a i])
+  obtain ⟨e2, h2, p2⟩ := catchPhase_ext hP hc (protect (runBody (tr ++ [.enterTry a i])))
   rw [guard_snd, h1] at h2
   unfold tryStmt
   simp only [finallyPhase_snd]
   cases hasFin
   · exact ⟨e1, e2, [], p1, p2, hP.nil, by simp [h2]⟩
   · obtain ⟨e3, h3, p3⟩ := guard_extends hf
-      ((catchPhase (fun r => protect (tryValue cl r)) (protect (runBody (tr ++ [.enterTry i])))).2 ++ [.enterFinally i])
+      ((catchPhase (fun r => protect (tryValue cl r)) (protect (runBody (tr ++ [.enterTry a i])))).2 ++ [.enterFinally a i])
     refine ⟨e1, e2, e3, p1, p2, p3, ?_⟩
     simp only [if_true]
     rw [h3, h2]
     simp [List.append_assoc]
 
-/-! ### projection onto the events of one try -/
+/-- the guarded call of a named function extends the trace like the callee does -/
+theorem callNamed_extends {P : List Ev → Prop} (hP : Mon P) (hres : ∀ v, P [.result v]) (A : Act) (k : Nat)
+    (h : Extends P (A.env k)) : Extends P (callNamed A k) := by
+  intro tr
+  unfold callNamed
+  split
+  · exact ⟨[], by simp, hP.nil⟩
+  · exact callResult_extends hP hres h tr
 
-theorem proj_append (i : Nat) (a b : List Ev) : proj i (a ++ b) = proj i a ++ proj i b := by
+/-! ### projection onto the events of one try in the activations of one level -/
+
+theorem proj_append (L i : Nat) (a b : List Ev) : proj L i (a ++ b) = proj L i a ++ proj L i b := by
   simp [proj]
 
-theorem mon_noEv (i : Nat) : Mon (fun e => proj i e = []) :=
-  ⟨rfl, fun {a b} ha hb => by simp only [proj_append]; rw [ha, hb]; rfl⟩
+/-- no event of try `i` at level `L` -/
+def NoEv (L i : Nat) (e : List Ev) : Prop := proj L i e = []
 
-theorem alternates_nil (i : Nat) : Alternates i [] := ⟨0, rfl⟩
+/-- the events of try `i` at level `L` are `enterTry, enterFinally` repeated -/
+def Alt (L i : Nat) (e : List Ev) : Prop := Alternates L i (proj L i e)
 
-theorem alternates_append {i : Nat} {a b : List Ev} (ha : Alternates i a) (hb : Alternates i b) :
-    Alternates i (a ++ b) := by
+theorem mon_noEv (L i : Nat) : Mon (NoEv L i) :=
+  ⟨rfl, fun {a b} ha hb => by unfold NoEv at *; simp only [proj_append]; rw [ha, hb]; rfl⟩
+
+theorem alternates_nil (L i : Nat) : Alternates L i [] := ⟨0, rfl⟩
+
+theorem alternates_append {L i : Nat} {a b : List Ev} (ha : Alternates L i a) (hb : Alternates L i b) :
+    Alternates L i (a ++ b) := by
   obtain ⟨n, rfl⟩ := ha
   obtain ⟨m, rfl⟩ := hb
   refine ⟨n + m, ?_⟩
@@ -120,18 +135,38 @@ theorem alternates_append {i : Nat} {a b : List Ev} (ha : Alternates i a) (hb : 
   | succ n ih => rw [Nat.succ_add, List.replicate_succ, List.replicate_succ, List.flatten_cons, List.flatten_cons,
       List.append_assoc, ih]
 
-theorem mon_alt (i : Nat) : Mon (fun e => Alternates i (proj i e)) :=
-  ⟨alternates_nil i, fun {a b} ha hb => by simp only [proj_append]; exact alternates_append ha hb⟩
+theorem mon_alt (L i : Nat) : Mon (Alt L i) :=
+  ⟨alternates_nil L i, fun {a b} ha hb => by unfold Alt at *; simp only [proj_append]; exact alternates_append ha hb⟩
 
-theorem proj_single_other {i : Nat} {e : Ev} (h : isTryEv i e = false) : proj i [e] = [] := by
+theorem proj_single_other {L i : Nat} {e : Ev} (h : isTryEv L i e = false) : proj L i [e] = [] := by
   simp [proj, h]
 
-/-! ### a statement that does not mention try `i` emits no event of try `i` -/
+theorem noEv_single {L i : Nat} {e : Ev} (h : isTryEv L i e = false) : NoEv L i [e] := proj_single_other h
+
+theorem alt_of_noEv {L i : Nat} {e : List Ev} (h : NoEv L i e) : Alt L i e := by
+  unfold Alt; rw [h]; exact alternates_nil L i
+
+/-- the try events of activation level `a`, try `j` are not events of (`L`, `i`) unless `a = L` and `j = i` -/
+theorem isTryEv_enterTry_false {L i a j : Nat} (h : ¬ (a = L ∧ j = i)) : isTryEv L i (.enterTry a j) = false := by
+  simp only [isTryEv, Bool.and_eq_false_iff, beq_eq_false_iff_ne, ne_eq]
+  by_cases ha : a = L
+  · exact Or.inr (fun hj => h ⟨ha, hj⟩)
+  · exact Or.inl ha
+
+theorem isTryEv_enterFinally_false {L i a j : Nat} (h : ¬ (a = L ∧ j = i)) : isTryEv L i (.enterFinally a j) = false := by
+  simp only [isTryEv, Bool.and_eq_false_iff, beq_eq_false_iff_ne, ne_eq]
+  by_cases ha : a = L
+  · exact Or.inr (fun hj => h ⟨ha, hj⟩)
+  · exact Or.inl ha
+
+/-! ### a statement emits no event of (`L`, `i`) when it runs at another level or does not mention try `i`, and its
+callees emit none -/
 
 mutual
-theorem exec_noEv (G : Model.Hier.Graph) (cfg : Cfg) (hg : cfg.guarded = true) (i : Nat) :
-    ∀ (s : Stmt), mentionsS i s = false → ∀ cur, Extends (fun e => proj i e = []) (exec G cfg cur s)
-  | .echo m, _, cur => fun tr => ⟨[.echo m], by simp [exec], proj_single_other rfl⟩
+theorem exec_noEv (G : Model.Hier.Graph) (cfg : Cfg) (hg : cfg.guarded = true) (L i : Nat) (A : Act)
+    (henv : ∀ k, Extends (NoEv L i) (A.env k)) :
+    ∀ (s : Stmt), (A.lvl = L → mentionsS i s = false) → ∀ cur, Extends (NoEv L i) (exec G cfg cur A s)
+  | .echo m, _, cur => fun tr => ⟨[.echo A.lvl m], by simp [exec], noEv_single rfl⟩
   | .throw c st, _, cur => fun tr => ⟨[], by simp [exec], rfl⟩
   | .rethrow, _, cur => fun tr => ⟨[], by simp [exec], rfl⟩
   | .gopanic, _, cur => fun tr => ⟨[], by simp [exec], rfl⟩
@@ -139,38 +174,46 @@ theorem exec_noEv (G : Model.Hier.Graph) (cfg : Cfg) (hg : cfg.guarded = true) (
   | .brk, _, cur => fun tr => ⟨[], by simp [exec], rfl⟩
   | .cont, _, cur => fun tr => ⟨[], by simp [exec], rfl⟩
   | .loop k b, h, cur => by
-    have hb := execB_noEv G cfg hg i b (by simpa [mentionsS] using h) cur
+    have hb := execB_noEv G cfg hg L i A henv b (fun e => by simpa [mentionsS] using h e) cur
     intro tr
     simp only [exec]
-    exact loopN_extends (mon_noEv i) hb k tr
+    exact loopN_extends (mon_noEv L i) hb k tr
   | .call b, h, cur => by
-    have hb := execB_noEv G cfg hg i b (by simpa [mentionsS] using h) none
+    have hb := execB_noEv G cfg hg L i A henv b (fun e => by simpa [mentionsS] using h e) none
     intro tr
     simp only [exec]
-    exact callResult_extends (mon_noEv i) (fun v => proj_single_other rfl) hb tr
+    exact callResult_extends (mon_noEv L i) (fun v => noEv_single rfl) hb tr
+  | .callf k, _, cur => by
+    intro tr
+    simp only [exec]
+    exact callNamed_extends (mon_noEv L i) (fun v => noEv_single rfl) A k (henv k) tr
   | .try_ j b cs hasFin fin, h, cur => by
-    simp only [mentionsS, Bool.or_eq_false_iff] at h
-    obtain ⟨⟨⟨hj, hb⟩, hc⟩, hf⟩ := h
-    have hb' := execB_noEv G cfg hg i b hb cur
-    have hc' : ∀ x, Extends (fun e => proj i e = []) (fun t => execC G cfg j 0 x cs t) :=
-      fun x => execC_noEv G cfg hg i cs hc j 0 x
-    have hf' := execB_noEv G cfg hg i fin hf cur
+    have h' : A.lvl = L → ((j ≠ i ∧ mentionsB i b = false) ∧ mentionsC i cs = false) ∧ mentionsB i fin = false :=
+      fun e => by simpa [mentionsS, Bool.or_eq_false_iff] using h e
+    have hb' := execB_noEv G cfg hg L i A henv b (fun e => (h' e).1.1.2) cur
+    have hc' : ∀ x, Extends (NoEv L i) (fun t => execC G cfg A j 0 x cs t) :=
+      fun x => execC_noEv G cfg hg L i A henv cs (fun e => (h' e).1.2) j 0 x
+    have hf' := execB_noEv G cfg hg L i A henv fin (fun e => (h' e).2) cur
     intro tr
     simp only [exec, hg, if_true]
-    obtain ⟨e1, e2, e3, p1, p2, p3, hs⟩ := tryStmt_shape (mon_noEv i) j hasFin hb' hc' hf' tr
-    have hj' : isTryEv i (.enterTry j) = false := by simpa [isTryEv] using hj
-    have hj'' : isTryEv i (.enterFinally j) = false := by simpa [isTryEv] using hj
-    refine ⟨[.enterTry j] ++ e1 ++ e2 ++ (if hasFin then [.enterFinally j] ++ e3 else []), by rw [hs]; simp [List.append_assoc], ?_⟩
+    obtain ⟨e1, e2, e3, p1, p2, p3, hs⟩ := tryStmt_shape (mon_noEv L i) A.lvl j hasFin hb' hc' hf' tr
+    have hne : ¬ (A.lvl = L ∧ j = i) := fun ⟨e, ej⟩ => (h' e).1.1.1 ej
+    have hj' := isTryEv_enterTry_false hne
+    have hj'' := isTryEv_enterFinally_false hne
+    refine ⟨[.enterTry A.lvl j] ++ e1 ++ e2 ++ (if hasFin then [.enterFinally A.lvl j] ++ e3 else []), by rw [hs]; simp [List.append_assoc], ?_⟩
+    unfold NoEv at *
     cases hasFin
     · simp only [proj_append, p1, p2, proj_single_other hj']; rfl
     · simp only [if_true, proj_append, p1, p2, p3, proj_single_other hj', proj_single_other hj'']; rfl
-theorem execB_noEv (G : Model.Hier.Graph) (cfg : Cfg) (hg : cfg.guarded = true) (i : Nat) :
-    ∀ (b : Block), mentionsB i b = false → ∀ cur, Extends (fun e => proj i e = []) (execB G cfg cur b)
+theorem execB_noEv (G : Model.Hier.Graph) (cfg : Cfg) (hg : cfg.guarded = true) (L i : Nat) (A : Act)
+    (henv : ∀ k, Extends (NoEv L i) (A.env k)) :
+    ∀ (b : Block), (A.lvl = L → mentionsB i b = false) → ∀ cur, Extends (NoEv L i) (execB G cfg cur A b)
   | .nil, _, cur => fun tr => ⟨[], by simp [execB], rfl⟩
   | .cons s rest, h, cur => by
-    simp only [mentionsB, Bool.or_eq_false_iff] at h
-    have hs := exec_noEv G cfg hg i s h.1 cur
-    have hr := execB_noEv G cfg hg i rest h.2 cur
+    have h' : A.lvl = L → mentionsS i s = false ∧ mentionsB i rest = false :=
+      fun e => by simpa [mentionsB, Bool.or_eq_false_iff] using h e
+    have hs := exec_noEv G cfg hg L i A henv s (fun e => (h' e).1) cur
+    have hr := execB_noEv G cfg hg L i A henv rest (fun e => (h' e).2) cur
     intro tr
     obtain ⟨e1, h1, p1⟩ := hs tr
     rw [execB]
@@ -178,22 +221,52 @@ theorem execB_noEv (G : Model.Hier.Graph) (cfg : Cfg) (hg : cfg.guarded = true) 
     · rename_i tr' heq
       obtain ⟨e2, h2, p2⟩ := hr tr'
       have : tr' = tr ++ e1 := by rw [← h1, heq]
-      exact ⟨e1 ++ e2, by rw [h2, this, List.append_assoc], (mon_noEv i).app p1 p2⟩
+      exact ⟨e1 ++ e2, by rw [h2, this, List.append_assoc], (mon_noEv L i).app p1 p2⟩
     · exact ⟨e1, h1, p1⟩
-theorem execC_noEv (G : Model.Hier.Graph) (cfg : Cfg) (hg : cfg.guarded = true) (i : Nat) :
-    ∀ (cs : Catches), mentionsC i cs = false → ∀ j k x, Extends (fun e => proj i e = []) (execC G cfg j k x cs)
+theorem execC_noEv (G : Model.Hier.Graph) (cfg : Cfg) (hg : cfg.guarded = true) (L i : Nat) (A : Act)
+    (henv : ∀ k, Extends (NoEv L i) (A.env k)) :
+    ∀ (cs : Catches), (A.lvl = L → mentionsC i cs = false) → ∀ j k x, Extends (NoEv L i) (execC G cfg A j k x cs)
   | .nil, _, j, k, x => fun tr => ⟨[], by simp [execC], rfl⟩
   | .cons tys b rest, h, j, k, x => by
-    simp only [mentionsC, Bool.or_eq_false_iff] at h
-    have hb := execB_noEv G cfg hg i b h.1 (some x)
-    have hr := execC_noEv G cfg hg i rest h.2 j (k+1) x
+    have h' : A.lvl = L → mentionsB i b = false ∧ mentionsC i rest = false :=
+      fun e => by simpa [mentionsC, Bool.or_eq_false_iff] using h e
+    have hb := execB_noEv G cfg hg L i A henv b (fun e => (h' e).1) (some x)
+    have hr := execC_noEv G cfg hg L i A henv rest (fun e => (h' e).2) j (k+1) x
     intro tr
     rw [execC]
     split
-    · obtain ⟨e, h1, p1⟩ := hb (tr ++ [.caught j k x])
-      exact ⟨[.caught j k x] ++ e, by rw [h1]; simp [List.append_assoc],
-        (mon_noEv i).app (proj_single_other rfl) p1⟩
+    · obtain ⟨e, h1, p1⟩ := hb (tr ++ [.caught A.lvl j k x])
+      exact ⟨[.caught A.lvl j k x] ++ e, by rw [h1]; simp [List.append_assoc],
+        (mon_noEv L i).app (noEv_single rfl) p1⟩
     · exact hr tr
 end
+
+/-! ### levels only go down: the callees of an activation of level `n` run at levels below `n` -/
+
+/-- a call made from an activation of level `n ≤ L` emits no try event of level `L` -/
+theorem envAt_noEv_above (G : Model.Hier.Graph) (cfg : Cfg) (hg : cfg.guarded = true) (fns : List Block) (i : Nat) :
+    ∀ (n L : Nat), n ≤ L → ∀ k, Extends (NoEv L i) (envAt G cfg fns n k)
+  | 0, L, _, k => fun tr => ⟨[], by simp [envAt], rfl⟩
+  | n+1, L, hl, k => by
+    intro tr
+    rw [envAt]
+    split
+    · rename_i b _
+      exact execB_noEv G cfg hg L i ⟨n, envAt G cfg fns n⟩ (envAt_noEv_above G cfg hg fns i n L (by omega)) b
+        (fun e => by simp at e; omega) none tr
+    · exact ⟨[], by simp, rfl⟩
+
+/-- no function mentions try `i`: no call emits an event of try `i`, at any level -/
+theorem envAt_noEv_unmentioned (G : Model.Hier.Graph) (cfg : Cfg) (hg : cfg.guarded = true) (fns : List Block) (i : Nat)
+    (hf : ∀ b ∈ fns, mentionsB i b = false) : ∀ (n L : Nat) k, Extends (NoEv L i) (envAt G cfg fns n k)
+  | 0, L, k => fun tr => ⟨[], by simp [envAt], rfl⟩
+  | n+1, L, k => by
+    intro tr
+    rw [envAt]
+    split
+    · rename_i b hb
+      exact execB_noEv G cfg hg L i ⟨n, envAt G cfg fns n⟩ (envAt_noEv_unmentioned G cfg hg fns i hf n L) b
+        (fun _ => hf b (List.mem_of_getElem? hb)) none tr
+    · exact ⟨[], by simp, rfl⟩
 
 end Proofs.Exc
